@@ -91,7 +91,9 @@ Definition c06_prop (k : c06_case) : bool :=
   end.
 
 Definition c06_verdict (k : c06_case) : N :=
+  (* bundle size 0 marks "this generated history produced no event, hence no cursor": nothing to decide *)
+  if x_bundle k =? 0 then 0 else
   if x_err k =? 4 then 4 else
   (if c06_corresponds k then 0 else 1) + (if c06_prop k then 0 else 2).
 Definition c06_verdicts (l : list c06_case) := nonzero (map c06_verdict l).
-Definition c06_in_scope (k : c06_case) : bool := negb (x_err k =? 4).
+Definition c06_in_scope (k : c06_case) : bool := negb (x_err k =? 4) && negb (x_bundle k =? 0).
